@@ -9,7 +9,7 @@ import (
 	"verifharness/stats"
 )
 
-const ruleC01 = "rapid state machine: generated table schema (hash-only / hash+range, S/N/B keys), then Put / UpdateItem (SET, REMOVE, ADD, DELETE, upsert of absent keys) / DeleteItem (with and without ALL_OLD) / GetItem over a pool of 3-6 keys (for number keys in half of the cases adjacent 16-38 digit numbers, then without expressions), a fifth of the writes carrying a generated condition, and writes that are refused (key attribute missing or of the wrong type, wrongly typed index key: the complete internal snapshot must be unchanged; if the implementation accepts a request DynamoDB rejects, the case ends there), executed on the SDK v1 and v2 clients and on the reference map model; after every step GetItem of every pool key, a full Scan, DescribeTable.ItemCount and the SortedKeys/Data white-box invariant are compared. Non-trivial = history touching >= 2 distinct keys and containing an overwrite, a delete-then-reput, an update-created item or a delete of an absent key; distinct = distinct hash of the executed operation list."
+const ruleC01 = "rapid state machine: generated table schema (hash-only / hash+range, S/N/B keys), then Put / UpdateItem (SET, REMOVE, ADD, DELETE, upsert of absent keys) / DeleteItem (with and without ALL_OLD) / GetItem over a pool of 3-6 keys (for number keys in half of the cases adjacent 16-38 digit numbers, then without expressions), a fifth of the writes carrying a generated condition, and writes that are refused (key attribute missing or of the wrong type, wrongly typed or oversized index key, malformed update text, and the refused request sent a second time: the complete internal snapshot must be unchanged; if the implementation accepts a request DynamoDB rejects, the case ends there), executed on the SDK v1 and v2 clients and on the reference map model; after every step GetItem of every pool key, a full Scan, DescribeTable.ItemCount and the SortedKeys/Data white-box invariant are compared. Non-trivial = history touching >= 2 distinct keys and containing an overwrite, a delete-then-reput, an update-created item or a delete of an absent key; distinct = distinct hash of the executed operation list."
 
 // TestC01 decides property C01.
 func TestC01(t *testing.T) {
@@ -44,7 +44,8 @@ func TestC01(t *testing.T) {
 			g.keys = keys
 		}
 		w.pool[s.Table] = g.keys
-		g.failClasses = []string{"index-key-type-put", "index-key-type-update", "wrong-typed-key", "missing-key-attr", "oversized-index-key"}
+		g.failClasses = []string{"index-key-type-put", "index-key-type-update", "wrong-typed-key", "missing-key-attr", "oversized-index-key", "malformed-update"}
+		var lastRefused *model.Op
 		var flagOverwrite, flagReput, flagUpsert, flagDelAbsent bool
 		touched := map[string]bool{}
 		deleted := map[string]bool{}
@@ -171,9 +172,14 @@ func TestC01(t *testing.T) {
 					return
 				}
 				op, class := g.failingOp(rt, w.m)
+				if lastRefused != nil && rapid.IntRange(0, 2).Draw(rt, "sendRefusedAgain") == 1 {
+					// the request refused a moment ago, once more: it must be refused again
+					op, class = *lastRefused, "sent-again"
+				}
 				if op.Kind == "Get" || bigNums && op.Kind == "Update" {
 					return
 				}
+				lastRefused = &op
 				op.TrySpec = true
 				_, status, f := w.do(op)
 				fail(f)
